@@ -529,7 +529,30 @@ func Valid(t *rapid.T, name string) *models.Namespace {
 			parents = append(parents, r)
 		}
 	}
+	// the order of list entries carries no meaning: children before their parents, rules of
+	// different databases interleaved, slices and users in any order
+	if len(ns.ShardRules) >= 2 && rapid.IntRange(0, 9).Draw(t, "permute_rules") < 6 {
+		ns.ShardRules = permuted(t, "rules_order", ns.ShardRules)
+	}
+	if len(ns.Slices) >= 2 && rapid.IntRange(0, 9).Draw(t, "permute_slices") < 3 {
+		ns.Slices = permuted(t, "slices_order", ns.Slices)
+	}
+	if len(ns.Users) >= 2 && rapid.IntRange(0, 9).Draw(t, "permute_users") < 3 {
+		ns.Users = permuted(t, "users_order", ns.Users)
+	}
 	return ns
+}
+
+func permuted[T any](t *rapid.T, name string, xs []T) []T {
+	idx := make([]int, len(xs))
+	for i := range idx {
+		idx[i] = i
+	}
+	out := make([]T, len(xs))
+	for i, j := range rapid.Permutation(idx).Draw(t, name) {
+		out[i] = xs[j]
+	}
+	return out
 }
 
 // ---- mutations ----
@@ -575,7 +598,7 @@ func Mutate(t *rapid.T, ns *models.Namespace, tag string) string {
 			"padding_short", "padding_begin_end", "type_unknown", "type_default", "row_limit_zero", "murmur_vbt", "murmur_seed", "hash_slice_bad",
 			// the location edits are the heart of the property: weight them
 			"loc_zero", "loc_negative", "loc_negative", "table_case_dup", "table_case_dup", "padding_short", "db_dup",
-			"db_overlap", "db_overlap", "db_overlap", "date_touch", "date_touch", "date_touch")
+			"db_overlap", "db_overlap", "db_overlap", "date_touch", "date_touch", "date_touch", "child_first", "child_first", "children_around_parent")
 	}
 	k := pick(t, tag+"_kind", kinds)
 	idx := func(n int, name string) int {
@@ -788,6 +811,36 @@ func Mutate(t *rapid.T, ns *models.Namespace, tag string) string {
 				break
 			}
 		}
+	case "child_first":
+		// a linked child listed before its parent (a new one when the namespace has none)
+		child := &models.Shard{DB: rule.DB, Table: "tbl_child_first", Type: models.ShardLinked, ParentTable: rule.Table, Key: "id"}
+		var rest []*models.Shard
+		found := false
+		for _, r := range ns.ShardRules {
+			if !found && r.Type == models.ShardLinked {
+				child, found = r, true
+				continue
+			}
+			rest = append(rest, r)
+		}
+		ns.ShardRules = append([]*models.Shard{child}, rest...)
+	case "children_around_parent":
+		// two children of one parent on both sides of it, an unrelated rule in between when there is one
+		var rest []*models.Shard
+		for _, r := range ns.ShardRules {
+			if r != rule {
+				rest = append(rest, r)
+			}
+		}
+		c1 := &models.Shard{DB: rule.DB, Table: "tbl_child_before", Type: models.ShardLinked, ParentTable: rule.Table, Key: "id"}
+		c2 := &models.Shard{DB: rule.DB, Table: "tbl_child_after", Type: models.ShardLinked, ParentTable: rule.Table, Key: "id"}
+		out := []*models.Shard{c1}
+		if len(rest) > 0 {
+			out = append(out, rest[0])
+			rest = rest[1:]
+		}
+		out = append(out, rule, c2)
+		ns.ShardRules = append(out, rest...)
 	case "linked_missing":
 		ns.ShardRules = append(ns.ShardRules, &models.Shard{DB: rule.DB, Table: "tbl_child_m", Type: models.ShardLinked, ParentTable: "no_such_table", Key: "id"})
 	case "linked_to_linked":
